@@ -115,6 +115,31 @@ def random_string(r):
     return "".join(map(chr, out))
 
 
+def nested(kind, depth):
+    v = 7
+    for i in range(depth):
+        v = [v] if kind == "list" or (kind == "mixed" and i % 2) else {"k": v}
+    return v
+
+
+def nested_bytes(kind, depth):
+    """Canonical bytes of nested(kind, depth), built without recursion."""
+    opens, closes = [], []
+    pending = ""                      # text that precedes the next opening bracket on its line
+    for lvl in range(depth):
+        i = depth - 1 - lvl           # nested() wraps inside-out: outermost container has the largest i
+        is_list = kind == "list" or (kind == "mixed" and i % 2)
+        opens.append("  " * lvl + pending + ("[" if is_list else "{"))
+        closes.append("  " * lvl + ("]" if is_list else "}"))
+        pending = "" if is_list else '"k": '
+    body = "  " * depth + pending + "7"
+    return "\n".join(opens + [body] + closes[::-1]).encode("ascii")
+
+
+def at_depth(n, fn):
+    return fn() if n <= 0 else at_depth(n - 1, fn)
+
+
 def check(run):
     quick = run.tier == "quick"
     common = lib.cct("common")
@@ -232,6 +257,30 @@ def check(run):
                 elif cs(json.loads(got)) != got:
                     run.violation("large document is not a fixpoint of parse-then-serialize", {"kind": "canon-random", "value_repr": f"{container} {size} {order}"})
     run.extra["large_documents"] = nlarge
+    # deep documents and deep call stacks: whenever bytes are returned they are THE bytes of the value (running out of stack may
+    # fail the call - RecursionError - but must never change the result)
+    for d in (1, 2, 7):
+        for kind in ("list", "dict", "mixed"):
+            if twin_canon(nested(kind, d)) != nested_bytes(kind, d):
+                raise MachineryFailure("closed form for nested documents disagrees with twin_canon")
+    ndeep, nfail = 0, 0
+    for kind in ("list", "dict", "mixed"):
+        for depth in ([50, 300, 900, 990, 1000, 1100, 1500] if quick else [50, 100, 300, 500, 700, 900, 980, 990, 995, 1000, 1010, 1100, 1500, 3000, 5000]):
+            val, want = nested(kind, depth), nested_bytes(kind, depth)
+            for frames in ((0, 500, 800, 950) if quick else (0, 100, 300, 500, 700, 800, 900, 950, 970, 985)):
+                try:
+                    got = at_depth(frames, lambda: cs(val))
+                except RecursionError:
+                    nfail += 1
+                    got = None
+                run.evaluations += 1
+                ndeep += 1
+                run._distinct.add(f"deep-{kind}-{depth}-{frames}")
+                if got is not None and got != want:
+                    run.violation("canonserialize returns other bytes for a deeply nested value / from a deep call stack",
+                                  {"kind": "canon-random", "value_repr": f"{kind} nested {depth} deep, serialised {frames} frames below the caller",
+                                   "got_head": got[:80].decode("ascii", "replace")})
+    run.extra["deep_documents"] = {"calls": ndeep, "ended_in_RecursionError": nfail}
     run.extra["random_values_beyond_bounded_domain"] = n
     run.assumptions.append("beyond the bounded domain of Canon.tla (all floats, arbitrary-size integers, all of Unicode) the claim is seeded random sampling against twin_canon, itself cross-checked against Canon.tla on the whole bounded domain in this run")
 
